@@ -7,16 +7,6 @@ import (
 	"verif/harness/app"
 )
 
-func show(r *app.Runner, act app.Action) {
-	res := r.Exec(act)
-	ab, _ := json.Marshal(act)
-	rb, _ := json.Marshal(res)
-	fmt.Printf("%s\n  -> %s\n", ab, rb)
-	st := r.A.Project()
-	sb, _ := json.Marshal(st)
-	fmt.Printf("  st %.420s\n", sb)
-}
-
 func main() {
 	c := app.Cfg{N: 3, PR: 2, MinStake: 2, MaxVals: 2, UnstakeTime: 1, Window: 3, JailDur: 1, MaxEvAge: 2, Fee: 1,
 		Bal: []int64{10, 10, 10}, GVals: []app.GVal{{V: 1, Status: 2, Tokens: 4}}, DaoTokens: 5, DaoOwner: 2, AclOwner: []int{3}}
@@ -25,22 +15,9 @@ func main() {
 		panic(err)
 	}
 	defer r.A.Close()
-	show(r, app.Action{A: "InitChain"})
-	show(r, app.Action{A: "BeginBlock", Dt: 1, Prop: 1})
-	show(r, app.Action{A: "Tx", Kind: "stake", From: 2, Amt: 4, Fee: 1})
-	show(r, app.Action{A: "Tx", Kind: "send", From: 3, To: 2, Amt: 3, Fee: 1})
-	show(r, app.Action{A: "Tx", Kind: "send", From: 3, To: 2, Amt: 3, Fee: 1, Signer: 1})
-	show(r, app.Action{A: "ExtAward", To: 3, Amt: 2})
-	show(r, app.Action{A: "EndBlock"})
-	show(r, app.Action{A: "Commit"})
-	show(r, app.Action{A: "BeginBlock", Dt: 1, Prop: 1, Votes: [][3]int64{{1, 1, 2}}})
-	show(r, app.Action{A: "Tx", Replay: 2})
-	show(r, app.Action{A: "Tx", Kind: "unstake", From: 2, Fee: 1})
-	show(r, app.Action{A: "EndBlock"})
-	show(r, app.Action{A: "Commit"})
-	show(r, app.Action{A: "Restart"})
-	show(r, app.Action{A: "BeginBlock", Dt: 1, Prop: 1, Votes: [][3]int64{{1, 1, 2}}})
-	show(r, app.Action{A: "EndBlock"})
-	show(r, app.Action{A: "Commit"})
-	fmt.Println("rpc calls", r.A.RPC.Calls)
+	for _, act := range []app.Action{{A: "InitChain"}, {A: "BeginBlock", Dt: 1, Prop: 1}, {A: "Tx", Kind: "garbage", Variant: 4, Fee: 1}, {A: "CheckTx", Kind: "garbage", Variant: 4, Fee: 1}} {
+		res := r.Exec(act)
+		rb, _ := json.Marshal(res)
+		fmt.Printf("%s -> %.300s\n", act.A, rb)
+	}
 }
